@@ -46,6 +46,12 @@ FieldValue = typing.Union[bool, bytes, bytearray, decimal.Decimal, FieldArray,
 Arguments = typing.Optional[FieldTable]
 """Defines an AMQP method arguments argument data type"""
 
+DecimalContext = decimal.Context(prec=decimal.MAX_PREC,
+                                 Emax=decimal.MAX_EMAX,
+                                 Emin=decimal.MIN_EMIN)
+"""Context for scaling decimal field values exactly, so that encoding and
+decoding do not depend on the precision of the caller's decimal context."""
+
 
 class Struct:
     """Simple object for getting to the struct objects for
